@@ -4,13 +4,14 @@
    receive loop (Model.Emulator.estep, split into "update state" and "write acknowledge" in the order the GENERATED
    skeleton of Receive shows) as separately scheduled steps over two FIFO channels.  A schedule is any list of
    choices; the theorems quantify over all of them, over all command sequences and all configurations.
-   The channels carry frames; that a lossless byte stream of well-formed frames is delivered frame by frame under
-   every fragmentation is C01 (Props/C01.v) and that the client's command loop is the frame-level loop used here
-   is C08 (client_refines_spec, command_consumes_to_ack). *)
+   The channels carry frames; theorems (7) below discharge that abstraction with C01: the bytes either side writes,
+   cut into reads in ANY way, are scanned by the other side's bufio.Scanner model into exactly those frames.
+   That the client's command loop is the frame-level loop used here is C08 (client_refines_spec). *)
 From Coq Require Import ZArith NArith List Bool String.
 Require Import Base.Bytes Model.Frame Model.Config Model.Conc Model.Emulator Model.Link Spec.ConfigSpec Spec.Order
   Gen.EmuSkeleton Gen.Funcs Gen.Layouts Model.Codec Model.Client Model.DataPath
-  Proofs.LinkProofs Proofs.OrderProofs Proofs.CodecProofs Proofs.DataPathProofs Tie.TranslationOk.
+  Lib.Bufio Spec.Terminal Proofs.ScanThm2
+  Proofs.LinkProofs Proofs.OrderProofs Proofs.CodecProofs Proofs.DataPathProofs Proofs.LinkBytes Tie.TranslationOk.
 Import ListNotations.
 Open Scope Z_scope.
 
@@ -89,6 +90,23 @@ Theorem C16_representable_values_unchanged : forall ty p l vs, dec_layout_of ty 
   Forall2 (fun f v => field_value_ok (snd f) v) l vs -> at_precision ty p vs = Some vs.
 Proof. exact representable_values_arrive_unchanged. Qed.
 Print Assumptions C16_configured_measurement_arrives.
+
+(* (7) byte level (composition with C01): what Transmit wrote / all requests / all acknowledges, as one byte stream
+   fragmented into reads of any sizes (empty reads included), with any terminal error, scan into exactly the frames
+   the model's channels carry *)
+Theorem C16_transmitted_bytes_scan_to_frames : forall cmds sch s rsch fin ewd,
+  commands_ok cmds -> sched_bytes_ok sch -> lrun (link_init cmds) sch = Some s -> data_phase s = true -> sched_ok rsch ->
+  run (2 * length (concat (ltx s)) + length rsch + 3) init_scanner (mk (concat (ltx s)) rsch fin ewd) [] = Some (ltx s, fin).
+Proof. exact transmitted_bytes_scan_to_frames. Qed.
+Theorem C16_request_bytes_scan_to_frames : forall cmds rsch fin ewd, commands_ok cmds -> sched_ok rsch ->
+  let fs := map cmd_frame cmds in
+  run (2 * length (concat fs) + length rsch + 3) init_scanner (mk (concat fs) rsch fin ewd) [] = Some (fs, fin).
+Proof. exact request_bytes_scan_to_frames. Qed.
+Theorem C16_acknowledge_bytes_scan_to_frames : forall cmds rsch fin ewd, sched_ok rsch ->
+  let fs := map ack_frame cmds in
+  run (2 * length (concat fs) + length rsch + 3) init_scanner (mk (concat fs) rsch fin ewd) [] = Some (fs, fin).
+Proof. exact acknowledge_bytes_scan_to_frames. Qed.
+Print Assumptions C16_transmitted_bytes_scan_to_frames.
 
 (* non-vacuity: a concrete sequence with a shrinking reconfiguration under a non-canonical schedule *)
 Example C16_example :
